@@ -48,6 +48,7 @@ func (c itCall) String() string {
 
 func c10Alphabet() (first []itCall, rest []itCall, dev []bool) {
 	first = append(first, itCall{K: "rewind"})
+	first = append(first, itCall{K: "fresh"}) // no positioning call at all: a new iterator stands on its first key
 	for _, t := range c10Targets {
 		first = append(first, itCall{K: "seek", T: t})
 	}
@@ -191,6 +192,8 @@ func c10Drive(it realIter, m *iterModel, calls []itCall, write func(kind string)
 		switch c.K {
 		case "rewind":
 			it.Rewind()
+			m.idx, m.rewond = 0, true
+		case "fresh":
 			m.idx, m.rewond = 0, true
 		case "next":
 			if !m.valid() {
